@@ -825,3 +825,70 @@ package restful
 //@ loop 0 invariant new: fresh(newRoutes) && same(w.routes, old(w.routes))
 //@ loop 0 invariant removed: forall(0, len(newRoutes), func(k int) bool { return !(newRoutes[k].Method == method && newRoutes[k].Path == path) })
 //@ loop 0 invariant kept: forall(0, it_i, func(j int) bool { return !(w.routes[j].Method == method && w.routes[j].Path == path) ==> exists(0, len(newRoutes), func(k int) bool { return same(newRoutes[k], w.routes[j]) }) })
+
+// ---------------------------------------------------------------------------
+// BoundedCachedCompressors (C13): non-blocking under interference; what it
+// hands out comes out of the pool or is new; what it pools was handed back.
+
+//@ func newGzipWriter
+//@ props C13
+//@ trusted not verified: wraps gzip.NewWriterLevel (dependency); returns a new writer
+//@ ensures result != nil && fresh(result)
+//@ modifies nothing
+//@ nopanic
+
+//@ func newZlibWriter
+//@ props C13
+//@ trusted not verified: wraps zlib.NewWriterLevel (dependency); returns a new writer
+//@ ensures result != nil && fresh(result)
+//@ modifies nothing
+//@ nopanic
+
+//@ func newGzipReader
+//@ props C13 C16
+//@ trusted not verified: builds a gzip.Reader over an empty stream (dependency); returns a new reader
+//@ ensures result != nil && fresh(result)
+//@ modifies nothing
+//@ nopanic
+
+//@ func (*BoundedCachedCompressors).AcquireGzipWriter
+//@ props C13
+//@ requires b != nil
+//@ ensures origin: fresh(result) || ghostInt("frompool", result) == 1
+//@ modifies nothing
+//@ nopanic
+
+//@ func (*BoundedCachedCompressors).AcquireZlibWriter
+//@ props C13
+//@ requires b != nil
+//@ ensures origin: fresh(result) || ghostInt("frompool", result) == 1
+//@ modifies nothing
+//@ nopanic
+
+//@ func (*BoundedCachedCompressors).AcquireGzipReader
+//@ props C13
+//@ requires b != nil
+//@ ensures origin: fresh(result) || ghostInt("frompool", result) == 1
+//@ modifies nothing
+//@ nopanic
+
+//@ func (*BoundedCachedCompressors).ReleaseGzipWriter
+//@ props C13
+//@ requires b != nil && heldBy(w) == 1
+//@ callsite chansend released: heldBy(arg0) == 1 && arg0 == w
+//@ modifies nothing
+//@ nopanic
+
+//@ func (*BoundedCachedCompressors).ReleaseZlibWriter
+//@ props C13
+//@ requires b != nil && heldBy(w) == 1
+//@ callsite chansend released: heldBy(arg0) == 1 && arg0 == w
+//@ modifies nothing
+//@ nopanic
+
+//@ func (*BoundedCachedCompressors).ReleaseGzipReader
+//@ props C13
+//@ requires b != nil && heldBy(r) == 1
+//@ callsite chansend released: heldBy(arg0) == 1 && arg0 == r
+//@ modifies nothing
+//@ nopanic
